@@ -6,6 +6,7 @@ import (
 	"encoding/json"
 	"fmt"
 	"reflect"
+	"strings"
 	"time"
 
 	"github.com/vimeo/dials"
@@ -120,10 +121,98 @@ func viaPublicAPI(defaults reflect.Value, layers []reflect.Value) (res reflect.V
 	return reflect.ValueOf(d.View()).Elem(), nil, false
 }
 
+// interface-typed config fields (outside the type universe of the Coq model, which has no dynamic types):
+// decided by a direct oracle only.  Defaults leave them nil (pointerification then keeps the interface type);
+// a layer stores a struct VALUE of one of two types (all-zero included), a map, a typed nil map, or nothing.
+// Whatever the dynamic types of the lower layers, the last layer that stored a non-nil value wins as a whole.
+type IfA struct {
+	A int
+	B string
+}
+type IfB struct {
+	X  float64
+	On bool
+}
+type IfaceCfg struct {
+	P int
+	I interface{}
+	Q string
+	J interface{}
+}
+
+func runIface(in input) driver.Result {
+	r := coqfmt.NewRng(in.State)
+	T := reflect.TypeOf(IfaceCfg{})
+	defaults := reflect.New(T)
+	defaults.Elem().Field(0).SetInt(int64(r.Intn(5)))
+	defaults.Elem().Field(2).SetString([]string{"", "d"}[r.Intn(2)])
+	exp := defaults.Elem().Interface().(IfaceCfg)
+	PT := ptrify.Pointerify(T, defaults.Elem())
+	nl := 1 + r.Intn(4)
+	layers := make([]reflect.Value, nl)
+	var desc []string
+	for i := range layers {
+		l := reflect.New(PT).Elem()
+		if r.Chance(1, 2) {
+			v := r.Intn(5)
+			l.Field(0).Set(reflect.ValueOf(&v))
+			exp.P = v
+		}
+		if r.Chance(1, 2) {
+			v := []string{"", "l"}[r.Intn(2)]
+			l.Field(2).Set(reflect.ValueOf(&v))
+			exp.Q = v
+		}
+		for _, fi := range []int{1, 3} {
+			var val interface{}
+			switch r.Intn(9) {
+			case 0, 1, 2:
+			case 3, 4:
+				val = IfA{A: r.Intn(3), B: []string{"", "x"}[r.Intn(2)]}
+			case 5:
+				val = IfA{}
+			case 6:
+				val = IfB{X: float64(r.Intn(2)), On: r.Chance(1, 2)}
+			case 7:
+				val = map[string]int{"k": r.Intn(3)}
+			default:
+				l.Field(fi).Set(reflect.ValueOf(map[string]int(nil))) // a typed nil: sets nothing
+				desc = append(desc, fmt.Sprintf("L%d.%d=nil-map", i, fi))
+				continue
+			}
+			if val == nil {
+				continue
+			}
+			l.Field(fi).Set(reflect.ValueOf(val))
+			desc = append(desc, fmt.Sprintf("L%d.%d=%#v", i, fi, val))
+			if fi == 1 {
+				exp.I = val
+			} else {
+				exp.J = val
+			}
+		}
+		layers[i] = l
+	}
+	var direct []string
+	res, err, panicked := composeSafe(defaults, layers)
+	switch {
+	case panicked:
+		direct = append(direct, "stacking interface-typed fields panicked: "+strings.Join(desc, " "))
+	case err != nil:
+		direct = append(direct, fmt.Sprintf("stacking interface-typed fields failed (%v): %s", err, strings.Join(desc, " ")))
+	case !reflect.DeepEqual(res.Interface(), exp):
+		direct = append(direct, fmt.Sprintf("interface-typed leaf is not the last non-nil layer value: got %#v want %#v; layers %s", res.Interface(), exp, strings.Join(desc, " ")))
+	}
+	return driver.Result{Coq: "StackSeq FNil [] FNil []", Kind: "iface-direct", Nontrivial: nl >= 2, Direct: direct}
+}
+
 func run(raw json.RawMessage) driver.Result {
 	var in input
 	if err := json.Unmarshal(raw, &in); err != nil {
 		panic(err)
+	}
+	if in.K == "iface" {
+		return runIface(in)
 	}
 	r := coqfmt.NewRng(in.State)
 	var T reflect.Type
@@ -137,6 +226,7 @@ func run(raw json.RawMessage) driver.Result {
 		o := rty.AllOpts(in.Depth, in.Width)
 		o.Twins = true
 		o.DeepPtrs = true
+		o.NilElems = true
 		o.IfaceSkip = r.Chance(1, 4)
 		T = rty.GenStruct(r, o, 0)
 	}
@@ -242,6 +332,8 @@ func gen(r *coqfmt.Rng, n int, tier string) []json.RawMessage {
 		k := "gen"
 		if r.Chance(1, 10) {
 			k = "static"
+		} else if r.Chance(1, 15) {
+			k = "iface"
 		}
 		b, _ := json.Marshal(input{K: k, State: r.U64(), Depth: depth, Width: width})
 		out = append(out, b)
@@ -252,7 +344,7 @@ func gen(r *coqfmt.Rng, n int, tier string) []json.RawMessage {
 func main() {
 	driver.Main(driver.Engine{
 		Prop: "C01", CoqImport: "Dials.Check.C01Check", CoqRun: "run_cases",
-		Rule: "random struct types (reflect.StructOf: scalars of every width, named scalars, durations, TextUnmarshaler structs with value/pointer receiver, slices, maps, arrays, user pointers, nested / pointer / embedded structs, []struct, unexported / dials:\"-\" / chan / func fields at random positions), random defaults, 0-5 layers of the pointerified type with a per-layer unset probability in {0,1/4,..,1}; non-trivial: >=2 layers and some top-level field set by >=2 layers; distinct = distinct PRNG case states",
+		Rule: "random struct types (reflect.StructOf; 1 case in 15 instead a declared type with interface{} fields decided by a direct oracle only: scalars of every width, named scalars, durations, TextUnmarshaler structs with value/pointer receiver, slices, maps, arrays (element types scalar or nil-able: *T, []T, map[string]T), user pointers, nested / pointer / embedded structs, []struct, unexported / dials:\"-\" / chan / func fields at random positions), random defaults, 0-5 layers of the pointerified type with a per-layer unset probability in {0,1/4,..,1}; non-trivial: >=2 layers and some top-level field set by >=2 layers; distinct = distinct PRNG case states",
 		Gen:  gen, Run: run,
 	})
 }
